@@ -617,3 +617,19 @@ func vBreakLineOrphansWidows() (int, []string) {
 //@   return 1 ensures[resume-inside-the-broken-child] haskey(result, childIndex) && len(result) == 1
 //@   return 2 ensures[resume-after-the-last-kept-child] haskey(result, (*children)[len(*children)-1].index + 1) && len(result) == 1
 //@   return 3 ensures result == nil
+
+// CSS 2.1 §9.4.1: block containers that are not block boxes (inline-blocks, table cells, captions), block
+// boxes with an overflow other than visible (auto included), flow roots and column boxes establish a new
+// block formatting context (their margins do not collapse with their children's); a plain block with visible
+// overflow that is neither floated nor absolutely positioned does not.
+//@ func establishesFormattingContext
+//@   props C10
+//@   modifies nothing
+//@   unclaimed call-*-pre* "box accessors"
+//@   unclaimed frame-* "IsFloated / IsAbsolutelyPositioned read the style (no frame contract)"
+//@   let box = box_.Box()
+//@   ensures[overflow] bo.BlockT.IsInstance(box_) && box.Style.GetOverflow() != "visible" ==> result
+//@   ensures[not-a-block-box] bo.BlockContainerT.IsInstance(box_) && !bo.BlockT.IsInstance(box_) ==> result
+//@   ensures[flow-root] box.Style.GetDisplay().Has("flow-root") ==> result
+//@   ensures[column] box.IsColumn ==> result
+//@   ensures[plain-block] result ==> callresult(IsFloated, 1) || callresult(IsAbsolutelyPositioned, 1) || box.IsColumn || (bo.BlockContainerT.IsInstance(box_) && !bo.BlockT.IsInstance(box_)) || (bo.BlockT.IsInstance(box_) && box.Style.GetOverflow() != "visible") || box.Style.GetDisplay().Has("flow-root")
